@@ -328,6 +328,20 @@ def check(prog, rep):
         restores = [node for kind, node, val in sites if is_restore(val) or _kw_restore(node, saved)]
         if not overrides:
             raise AnalysisError(f"{construct}: every write looks like a restore; idiom not recognised")
+        # the setter handed over as a value (stack.callback(setter, saved), partial(setter, saved), atexit ...): the restore
+        # is deferred to machinery this typestate does not model
+        deferred = [x for x in walk_local(fi.node, include_self=False)
+                    if isinstance(x, (ast.Attribute, ast.Name)) and isinstance(getattr(x, "ctx", None), ast.Load) and dotted(x) and resolve_dotted(dotted(x), aliases) == g
+                    and not (isinstance(getattr(x, "_parent", None), ast.Call) and x._parent.func is x)
+                    and not isinstance(getattr(x, "_parent", None), ast.Attribute)]
+        if not restores:
+            handed = [x for x in walk_local(fi.node, include_self=False) if isinstance(x, ast.Call) and any(isinstance(a_, ast.Name) and a_.id in saved for a_ in list(x.args) + [k_.value for k_ in x.keywords])]
+            if handed:
+                rep.undecided(f"{construct}: the saved value is handed to `{src(handed[0].func)[:40]}` at line {handed[0].lineno} and no direct restore is written; whether that call re-installs it (and when) is not modelled")
+                continue
+        if deferred and GLOBAL_SETTERS.get(g) is not None:
+            rep.undecided(f"{construct}: {g} is handed over as a value at line {deferred[0].lineno} (a deferred restore: callback / partial); when it runs is not modelled by this rule")
+            continue
 
         def transfer(node, facts):
             f = set(facts)
